@@ -1,6 +1,7 @@
 package main
 
 import (
+	"encoding/json"
 	"fmt"
 	"math/rand"
 	"net/url"
@@ -122,15 +123,101 @@ func runC06(r *Report, rng *rand.Rand, thorough bool) {
 			}
 		}
 	}
+	// ---- query parameters next to a form-encoded body: a field of the body is not a query parameter
+	type formCase struct {
+		name    string
+		query   string
+		body    string
+		wantOK  bool
+		wantArg map[string]string // params the handler must have seen (JSON text), "" = absent
+	}
+	fullQ := "token=tq&filter=" + url.QueryEscape(`{"limit":5}`) + "&n=7"
+	formCases := []formCase{
+		{"complete query, unrelated body", fullQ, "q=x&other=1", true, map[string]string{"token": `"tq"`, "n": "7", "opt": "", "note": ""}},
+		{"required pass-through parameter only in the body", "filter=" + url.QueryEscape(`{"limit":5}`) + "&n=7", "token=from-the-body&q=x", false, nil},
+		{"required JSON parameter only in the body", "token=tq&n=7", "filter=" + url.QueryEscape(`{"limit":5}`), false, nil},
+		{"required styled parameter only in the body", "token=tq&filter=" + url.QueryEscape(`{"limit":5}`), "n=7", false, nil},
+		{"every required parameter only in the body", "", fullQ, false, nil},
+		{"complete query, body fields of the same names with other content", fullQ, "token=tb&filter=not-json&n=abc&opt=zz&note=nb", true, map[string]string{"token": `"tq"`, "n": "7", "opt": "", "note": ""}},
+		{"optional parameters only in the body", fullQ, "opt=3&note=nb", true, map[string]string{"token": `"tq"`, "n": "7", "opt": "", "note": ""}},
+	}
+	formIDs := map[string]formCase{}
+	for _, fw := range Frameworks {
+		name := "par_" + fw + "_form"
+		if st := lab.Status[name]; !st.OK {
+			r.Violate("lab_package_broken:"+name, fmt.Sprintf("package %s does not build: generate error %q, compile error %q", name, st.GenerateError, trunc(st.CompileError, 400)), map[string]any{"framework": fw})
+			continue
+		}
+		for i, fc := range formCases {
+			id := fmt.Sprintf("%s/form/%d", name, i)
+			target := "/search"
+			if fc.query != "" {
+				target += "?" + fc.query
+			}
+			scenarios = append(scenarios, map[string]any{"id": id, "pkg": name, "opts": map[string]any{"short_circuit": -1, "strict_short_circuit": -1},
+				"req": map[string]any{"method": "POST", "target": target, "header": map[string][]string{"Content-Type": {"application/x-www-form-urlencoded"}}, "body": fc.body}})
+			formIDs[id] = fc
+		}
+	}
 	results, err := lab.Run(scenarios)
 	if err != nil {
 		r.Violate("lab_run_failed", err.Error(), nil)
 		return
 	}
+	for _, sc := range scenarios {
+		id := sc["id"].(string)
+		fc, ok := formIDs[id]
+		if !ok {
+			continue
+		}
+		res := results[id]
+		fw := strings.Split(id, "_")[1]
+		replay := map[string]any{"framework": fw, "scenario": sc, "case": fc.name}
+		r.Count("form/"+id, true)
+		r.Dist["kind=query-parameters-next-to-a-form-body"]++
+		if res == nil || res.Err != "" {
+			e := "no result"
+			if res != nil {
+				e = res.Err
+			}
+			r.Violate("scenario_error", id+" "+trunc(e, 200), replay)
+			continue
+		}
+		var hs []LabEvent
+		for _, e := range res.Trace {
+			if e.Kind == "handler" {
+				hs = append(hs, e)
+			}
+		}
+		if !fc.wantOK {
+			if len(hs) != 0 || res.Status != 400 {
+				r.Violate("form_body_field_taken_for_query_parameter/"+fw, fmt.Sprintf("%s POST /search?%s with form body %q (%s): handler calls %d, status %d, want no call and 400", fw, fc.query, fc.body, fc.name, len(hs), res.Status), replay)
+			}
+			continue
+		}
+		if len(hs) != 1 {
+			r.Violate("wellformed_rejected/"+fw+"/query/form-body", fmt.Sprintf("%s POST /search?%s with form body %q (%s): handler calls %d, status %d %q", fw, fc.query, fc.body, fc.name, len(hs), res.Status, trunc(res.RespBody, 100)), replay)
+			continue
+		}
+		var params map[string]json.RawMessage
+		_ = json.Unmarshal(hs[0].Data["params"], &params)
+		for k, want := range fc.wantArg {
+			got := string(params[k])
+			if got == "null" {
+				got = ""
+			}
+			if got != want {
+				r.Violate("form_body_field_taken_for_query_parameter/"+fw, fmt.Sprintf("%s POST /search?%s with form body %q (%s): handler saw %s = %s, want %q", fw, fc.query, fc.body, fc.name, k, got, want), replay)
+			}
+		}
+	}
 	wcases := NewCases("cases_C06", "From V Require Import Model.Wrapper Corr.Eval.", "list param * list wevent", "mismatches_wrapper")
 	defer wcases.WriteTo(r)
 	for _, sc := range scenarios {
 		id := sc["id"].(string)
+		if _, isForm := formIDs[id]; isForm {
+			continue
+		}
 		m := metas[id]
 		res := results[id]
 		replay := map[string]any{"framework": m.fw, "cell": m.cell, "scenario": sc, "corruption": m.kind}
@@ -204,5 +291,5 @@ func runC06(r *Report, rng *rand.Rand, thorough bool) {
 	}
 	r.Exhaustive = thorough
 	runC06Combine(r, rng, thorough)
-	r.Rule = "function level: CombineOperationParameters on random path-level / operation-level parameter lists vs the model; every operation of the parameter family (one per cell of location x style x explode x shape x required x schema/JSON content) x {required parameter missing, optional parameter missing (must be accepted), wrong type, integer overflow, bad date / date-time / uuid, wrong array element, malformed JSON content (truncated, wrong member type, a complete value followed by more text), wrong label/matrix prefix, duplicated single-valued header} x 7 frameworks x {default error path, configured error handler}; oracle: zero handler calls and status 400 / error handler invoked for corrupted requests, exactly one handler call for well-formed ones; non-trivial = a corruption or a missing required parameter"
+	r.Rule = "function level: CombineOperationParameters on random path-level / operation-level parameter lists vs the model; every operation of the parameter family (one per cell of location x style x explode x shape x required x schema/JSON content) x {required parameter missing, optional parameter missing (must be accepted), wrong type, integer overflow, bad date / date-time / uuid, wrong array element, malformed JSON content (truncated, wrong member type, a complete value followed by more text), wrong label/matrix prefix, duplicated single-valued header} x 7 frameworks x {default error path, configured error handler}; a POST operation with required pass-through / JSON / styled and optional query parameters next to a form-encoded body whose fields carry the parameters' names (required parameter only in the body: rejected; complete query with same-named body fields: accepted with the query's values; optional only in the body: absent); oracle: zero handler calls and status 400 / error handler invoked for corrupted requests, exactly one handler call for well-formed ones; non-trivial = a corruption or a missing required parameter"
 }
